@@ -176,7 +176,7 @@ so that the property files can share it) -/
 def OpD (F : Nat) (D : Nat → Row) (e : Est) : Op → Prop
   | .fit rows labels => labels = none ∧ (∀ r0, rows.head? = some r0 → r0.length = F) ∧
       (e.st.isLeavesOnly = false → ∀ i (hi : i < rows.length), rows[i].length = F → D (e.numFitted + i) = rows[i])
-  | .refine _ data im => (∀ r ∈ data, r.length = F) ∧ ∀ id r, im ≤ id → data[id - im]? = some r → r = D id
+  | .refine _ data im _ => (∀ r ∈ data, r.length = F) ∧ ∀ id r, im ≤ id → data[id - im]? = some r → r = D id
   | .setMerge _ _ _ b => ∀ b', b = some b' → 2 ≤ b'
   | .setBf b => 2 ≤ b
   | .reset => False
@@ -187,7 +187,7 @@ theorem opOK_of_opD (F : Nat) (D : Nat → Row) (e : Est) (op : Op) (h : OpD F D
   cases op with
   | fit rows labels =>
     exact ⟨h.1, h.2.1, fun hlo i hi hl => ⟨exact_ofRow D _ _ (h.2.2 hlo i hi hl), le_refl 1⟩, mergeClosed_exactN pol D _⟩
-  | refine n data im =>
+  | refine n data im srt =>
     refine ⟨h.1, fun id r hle hr => ?_, mergeClosed_exactN pol D _⟩
     have := h.2 id r hle hr
     subst this
@@ -222,7 +222,7 @@ theorem step_wfn (hpol : ∀ cfg, (pol cfg).Valid) (F : Nat) (D : Nat → Row) (
         intro p hp hr
         obtain ⟨i, hi, rfl⟩ := mem_zip_range' _ _ p hp
         exact hd hlo i hi (by simpa [rowOk] using hr)
-  | refine n data im =>
+  | refine n data im srt =>
     obtain ⟨hdata, hd⟩ := hop
     simp only [stepWith]
     unfold refine
@@ -250,7 +250,7 @@ theorem step_wfn (hpol : ∀ cfg, (pol cfg).Valid) (F : Nat) (D : Nat → Row) (
         · split
           · exact hw0
           · rename_i groups hg
-            obtain ⟨_, singles, hflat, _, hsing⟩ := refineGroups_spec _ _ _ _ _ hg
+            obtain ⟨_, singles, hflat, _, hsing⟩ := refineGroups_spec _ _ _ _ _ _ hg
             have hsorted := sortedClus_coe e0.st hinv0.ok
             apply refitGroups_wfn pol hpol D groups e0.reset hinv0.bf trivial
             intro g hg' u hu
